@@ -1,5 +1,5 @@
 (* C03: evaluation of the handler model and of the clocked runner on recorded probes. *)
-From CJ Require Import Common.Base C04.Model C04.Run C03.Model C03.StatsModel C03.ConnModel.
+From CJ Require Import Common.Base C04.Model C04.Run C03.Model C03.StatsModel C03.ConnModel C03.ReloadModel.
 Local Open Scope nat_scope.
 
 Record probe_case := {
@@ -126,8 +126,18 @@ Inductive hrec :=
 Record hist_case := {
   hc_events : list hrec;
   hc_final : snapshot;
-  hc_exact : bool       (* epochs at quiescent points: every snapshot is compared in full *)
+  hc_exact : bool;      (* epochs at quiescent points: every snapshot is compared in full *)
+  hc_reloads : list (option dbconf * N)   (* the reloads of the history in order: the configuration's GeoIP part, and which kind of
+                                             value regManager.GetGeoIP() held afterwards (ReloadModel.geo_kind) *)
 }.
+
+(* the GeoIP collaborator over the reloads of a history; the tie starts with a database in place (its stand-in) *)
+Definition geo_start : option database := Some (DMax (Some 0%N) (Some 0%N)).
+Fixpoint chk_reloads (cur : option database) (l : list (option dbconf * N)) : bool :=
+  match l with
+  | [] => true
+  | (conf, obs) :: l' => let n := on_reload false cur conf in (geo_kind n =? obs)%N && chk_reloads n l'
+  end.
 
 Definition rem_tab := list (N * list N).
 Fixpoint rem_find (c : N) (r : rem_tab) : list N :=
@@ -206,6 +216,7 @@ Fixpoint replay (exact : bool) (s : cstats) (tb : conn_tab) (rem : rem_tab) (pen
 
 Definition chk_hist (h : hist_case) : bool :=
   (* in a hammer history the epochs are not in the log: the model runs without them *)
+  chk_reloads geo_start (hc_reloads h) &&
   match replay (hc_exact h) init_stats [] [] [] (hc_events h) with
   | Some s => if hc_exact h then snap_matches s (hc_final h) else states_match s (hc_final h)
   | None => false
